@@ -248,9 +248,17 @@ fn history(ctx: &Ctx, out: &mut Out, rng: &mut Rng, prop: &str, idx: u64) {
     let mut cfg = HConfig::new(&rng.bytes(32));
     cfg.batch_size = if idx < 64 { idx as u8 + 1 } else { rng.range(1, 64) as u8 };
     let timer = stats && idx % 8 >= 6;
+    // a share of the timer histories has a queue as small as the real binary's and nobody drains it
+    // until the end: older snapshots are evicted (lossy by design), so only "never more than the
+    // traffic" can be demanded there
+    let small_queue = timer && idx % 16 >= 14;
     if timer {
         // status timer every status_interval/10 = 100 ms
         cfg.status_interval = std::time::Duration::from_secs(1);
+    }
+    if small_queue {
+        cfg.queue_cap = 2;
+        cfg.client_stats = true;
     }
     if stats {
         cfg.client_stats = idx % 2 == 1;
@@ -369,8 +377,16 @@ fn history(ctx: &Ctx, out: &mut Out, rng: &mut Rng, prop: &str, idx: u64) {
                 let _ = d.srv.step(1);
                 out.obs("stats_timer_ticks_awaited", 1);
             }
+            if small_queue {
+                // do not drain between rounds
+                continue;
+            }
             check_stats(out, &mut d, &mut tot, &rp);
         }
+    }
+    if small_queue && stats {
+        let rp = || round_replay(&cfg, &rounds);
+        check_stats_upper_bound(out, &mut d, &tot, &rp);
     }
     out.case(fnv64(&cfg.seed) ^ idx, socks_used.len() >= 3 && total_sent >= 3);
     if socks_used.len() >= 3 {
@@ -379,6 +395,29 @@ fn history(ctx: &Ctx, out: &mut Out, rng: &mut Rng, prop: &str, idx: u64) {
     out.obs("histories", 1);
     if out.samples.len() < 3 && total_sent <= 12 {
         out.sample(json!({"batch_size": cfg.batch_size, "sockets": nsocks, "rounds": rounds.iter().map(|r| r.iter().map(|(s,d)| json!({"socket":s,"datagram":short(d)})).collect::<Vec<_>>()).collect::<Vec<_>>(), "verified_replies": verified_here}));
+    }
+}
+
+/// with evictions possible: what is still in the recorder plus what is still in the queue can
+/// only be LESS than the traffic, never more (nothing may be published twice)
+pub fn check_stats_upper_bound(out: &mut Out, d: &mut Driver, t: &Totals, replay: &dyn Fn() -> serde_json::Value) {
+    let Some(s) = d.srv.stats() else { return };
+    let (mut valid, mut invalid, mut responses, mut bytes) = (s.valid, s.invalid, s.responses, s.bytes);
+    while let Some(snapshot) = d.srv.queue.pop() {
+        for c in snapshot {
+            valid += (c.rfc_requests + c.classic_requests) as u64;
+            invalid += c.invalid_requests as u64;
+            responses += (c.rfc_responses_sent + c.classic_responses_sent) as u64;
+            bytes += c.bytes_sent as u64;
+        }
+    }
+    out.obs("stats_upper_bound_checks", 1);
+    if valid + invalid > t.datagrams || responses > t.replies || bytes > t.bytes {
+        out.violation(
+            "C17 server-recorder counts-more-than-traffic small-queue",
+            &format!("recorder + queued snapshots hold valid {} + invalid {} of {} datagrams, {} of {} responses, {} of {} bytes: something was counted or published twice", valid, invalid, t.datagrams, responses, t.replies, bytes, t.bytes),
+            replay(),
+        );
     }
 }
 
@@ -496,6 +535,7 @@ pub fn run(ctx: &Ctx, out: &mut Out, prop: &str) {
     }
     if prop == "C17" {
         out.floor("stats_snapshots_compared", 200);
+        out.floor("stats_upper_bound_checks", 10);
         out.floor("stats_timer_ticks_awaited", 50);
         out.floor("stats_snapshots_popped_from_queue", 10);
     } else {
